@@ -150,6 +150,9 @@ func (b *rawBackend) serve(c net.Conn) {
 			fmt.Fprintf(c, "%x\r\n", end-off)
 			c.Write(payload[off:end])
 			io.WriteString(c, "\r\n")
+			if d := numOr(resp, "pause_ms", 0); d > 0 && off/cs < 4 { // flush pattern: pauses between the first chunks
+				time.Sleep(time.Duration(d) * time.Millisecond)
+			}
 		}
 		io.WriteString(c, "0\r\n\r\n")
 		return
